@@ -153,3 +153,118 @@ Theorem c18_code_leaf_split_division_is_model :
               (N.of_nat (Mutator.split_point ksize vsize es 0 (Mutator.leaf_bytes ksize vsize es / 2)%N))
               (Mutator.nlen es) 65535%N).
 Proof. exact @division_is_model. Qed.
+
+(* ================================================================================================
+   The TREE-LEVEL splice of an insert run (Btree/CursorSplice.v: open_insert_run's position, flush_insert_run,
+   splice_insert_run with its pointer-swap fast path and the carried bound, rebuild_branch_level,
+   build_branch_nodes, replace_branch_child, root growth).  Proofs: Btree/CursorSpliceP.v, CursorSpliceTopP.v. *)
+From RV Require Import Btree.Read Btree.ScanTree Btree.SpliceP Btree.CursorSplice Btree.CursorSpliceP Btree.CursorSpliceTopP.
+
+(* For EVERY well-formed tree, every gap (after the first |pre| entries), every run that the gap logic accepts
+   (strictly increasing and strictly between the gap's neighbours: `sorted (pre ++ run ++ post)`; the buffer is in
+   key order for ascending and descending runs alike), every key/value size function, page size and valid separator
+   function: the spliced tree satisfies TreeInv -- every separator bounds its neighbouring subtrees
+   (max left <= sep < min right: the routing invariant), every branch has >= 2 children, all leaves at one depth, no
+   empty leaf, length = number of entries -- and holds exactly SortedMap.insert of every entry of the run. *)
+Theorem c18_splice_refines : forall K V (cmp : K -> K -> comparison), OrderLaws cmp ->
+  forall (ksize : K -> N) (vsize : V -> N) (fixed_k fixed_v : bool) (page_size : N) (sep : K -> K -> K),
+  valid_sep cmp sep ->
+  forall (bt : @btree K V) (pre post run : list (K * V)),
+  TreeInv cmp bt -> abs_tree bt = pre ++ post -> run <> [] -> sorted cmp (pre ++ run ++ post) ->
+  TreeInv cmp (flush_at_gap cmp ksize vsize fixed_k fixed_v page_size sep bt (length pre) run) /\
+  abs_tree (flush_at_gap cmp ksize vsize fixed_k fixed_v page_size sep bt (length pre) run) = insert_all cmp (abs_tree bt) run /\
+  abs_tree (flush_at_gap cmp ksize vsize fixed_k fixed_v page_size sep bt (length pre) run) = pre ++ run ++ post.
+Proof. exact (@flush_at_gap_refines). Qed.
+
+(* the same for splice_insert_run at an explicit position (leaf j, index pos): index 0 is only admitted in the first
+   leaf -- a run opened at index 0 of a later leaf could hold keys at or below the separator in front of that leaf *)
+Theorem c18_splice_at_position : forall K V (cmp : K -> K -> comparison), OrderLaws cmp ->
+  forall (ksize : K -> N) (vsize : V -> N) (fixed_k fixed_v : bool) (page_size : N) (sep : K -> K -> K),
+  valid_sep cmp sep ->
+  forall (bt : @btree K V) j pos run, TreeInv cmp bt -> run <> [] ->
+  (bt_root bt <> None -> (j < length (bt_leaves bt))%nat /\ (pos <= length (nth j (bt_leaves bt) []))%nat /\ (pos = 0%nat -> j = 0%nat)) ->
+  sorted cmp (gap_pre (bt_leaves bt) j pos ++ run ++ gap_post (bt_leaves bt) j pos) ->
+  TreeInv cmp (splice_insert_run cmp ksize vsize fixed_k fixed_v page_size sep bt j pos run) /\
+  abs_tree (splice_insert_run cmp ksize vsize fixed_k fixed_v page_size sep bt j pos run) =
+    gap_pre (bt_leaves bt) j pos ++ run ++ gap_post (bt_leaves bt) j pos.
+Proof. exact (@splice_insert_run_ok). Qed.
+
+(* open_insert_run (peek_next, then peek_prev) keeps the gap and settles it so that the index is 0 only at the very
+   start of the tree: a gap that coincides with a leaf boundary is opened in the EARLIER leaf at its end (so that
+   peek_prev with a pending descending run reads the previous leaf's last entry from the current leaf) *)
+Theorem c18_open_run_position : forall E (ls : list (list E)), Forall (fun l => l <> []) ls ->
+  forall p, valid_pos ls p ->
+  valid_pos ls (open_pos ls p) /\ gap_index ls (open_pos ls p) = gap_index ls p /\
+  (snd (open_pos ls p) = 0%nat -> fst (open_pos ls p) = 0%nat).
+Proof. exact (@open_pos_spec). Qed.
+
+Theorem c18_open_run_at_boundary : forall E (ls : list (list E)), Forall (fun l => l <> []) ls ->
+  forall j, (S j < length ls)%nat ->
+  open_pos ls (S j, 0%nat) = (j, length (nth j ls [])) /\
+  open_pos ls (j, length (nth j ls [])) = (j, length (nth j ls [])).
+Proof. exact (fun E ls H j Hj => conj (@open_pos_boundary_from_later E ls H j Hj) (@open_pos_boundary_from_earlier E ls j Hj)). Qed.
+
+(* build_branch_nodes: any level of >= 2 children whose bounds route (only the last may lack one) is packed into
+   well-formed branch pages of the next height -- in particular each has >= 2 children --, nothing lost or reordered,
+   the bound of the level unchanged, and the level at least halves (root growth terminates) *)
+Theorem c18_branch_packing_inv : forall K V (cmp : K -> K -> comparison) (ksize : K -> N) (fixed_k : bool) (page_size : N) (dflt : K)
+  h lo hi (l : list (@node K V * option K)), (2 <= length l)%nat -> wk_chain cmp h lo hi l ->
+  let out := build_branch_nodes ksize fixed_k page_size (@Branch K V) dflt l in
+  wk_chain cmp (S h) lo hi out /\ wk_abs out = wk_abs l /\ last_key_of out = last_key_of l /\
+  (1 <= length out)%nat /\ (2 * length out <= length l)%nat.
+Proof. exact (@build_branch_nodes_ok). Qed.
+
+(* NOT stated as a theorem (missing): `c18_cursor_refines_tree` -- for every well-formed tree, bound and script,
+   CursorSplice.t_session returns the specification cursor's outputs and a tree with TreeInv whose contents are the
+   specification's map.  The ingredients are proved (c18_step_refines for every flush decision, c18_splice_refines for
+   every flush, c04_delete_refines for the removals); the induction over the script that threads `run_ok`, the sortedness
+   of `s_before ++ r_buf ++ s_after` and `abs tree = rev s_before ++ s_after` through c_step is not written.  The check
+   validates it per run instead (SPEC! / INV! markers of the shape stage). *)
+
+(* ---- non-vacuity and the two negative variants ------------------------------------------------ *)
+Definition ex_kv (n : N) : key * bytes := (KU64 n, [n]).
+Definition ex_leaf (l : list N) : @node key bytes := Leaf (List.map ex_kv l).
+(* three levels: root separator 4 between the subtrees {1,2 | 3,4} and {10,11 | 12,13} *)
+Definition ex_tree3 : @btree key bytes :=
+  mk_btree (Some (Branch (Branch (ex_leaf [1; 2]) [(KU64 2, ex_leaf [3; 4])])
+                         [(KU64 4, Branch (ex_leaf [10; 11]) [(KU64 11, ex_leaf [12; 13])])]))%N 8.
+
+(* the gap between 4 and 10 is the boundary of the two subtrees; the run 7, 8 is above the root separator 4.  The run is
+   opened at the END of leaf 1 (the earlier leaf); the replacement collapses to one leaf whose raised bound 8 passes the
+   parent (which stores no separator for its last child) and reaches the root, which is rebuilt with separator 8 *)
+Example c18_nonvacuous_splice :
+  let run := [ex_kv 7; ex_kv 8]%N in
+  let bt' := flush_at_gap key_cmp key_size val_size true false 64 (fun l r : key => l) ex_tree3 4 run in
+  tree_checkb key_cmp ex_tree3 = true /\
+  open_pos (bt_leaves ex_tree3) (gap_pos (bt_leaves ex_tree3) 4) = (1%nat, 2%nat) /\
+  tree_checkb key_cmp bt' = true /\
+  List.map fst (abs_tree bt') = List.map KU64 [1; 2; 3; 4; 7; 8; 10; 11; 12; 13]%N /\
+  match bt_root bt' with Some (Branch _ [(s, _)]) => s = KU64 8 | _ => False end.
+Proof. vm_compute. repeat split; reflexivity. Qed.
+
+(* NEGATIVE: the variant that drops the carried bound at the ancestor storing no separator for the slot leaves the
+   root separator 4 in front of a subtree that now holds 7 and 8: the routing invariant fails (get 7 would miss) *)
+Example c18_dropped_carried_bound_breaks_routing :
+  let run := [ex_kv 7; ex_kv 8]%N in
+  let bad := splice_insert_run_gen key_cmp key_size val_size true false 64 (fun l r : key => l) false ex_tree3 1 2 run in
+  tree_checkb key_cmp bad = false /\
+  Read.tget key_cmp bad (KU64 7) = None /\
+  Read.tget key_cmp (splice_insert_run key_cmp key_size val_size true false 64 (fun l r : key => l) ex_tree3 1 2 run) (KU64 7) = Some [7]%N.
+Proof. vm_compute. repeat split; reflexivity. Qed.
+
+(* NEGATIVE: branch packing without the `index - start >= 2` guard cuts a page after ONE child when a separator is
+   about a page long (variable-width keys, 64-byte pages, 10-byte separators): branch pages with no key *)
+Definition ex_long (n : N) : key := KBytes [n; n; n; n; n; n; n; n; n; n].
+Definition ex_level : list (@node key bytes * option key) :=
+  [(Leaf [(ex_long 1, [1])], Some (ex_long 1)); (Leaf [(ex_long 2, [2])], Some (ex_long 2));
+   (Leaf [(ex_long 3, [3])], Some (ex_long 3)); (Leaf [(ex_long 4, [4])], None)]%N.
+Definition keys_per_page (l : list (@node key bytes * option key)) : list nat :=
+  List.map (fun p => match fst p with Branch _ rest => length rest | Leaf _ => 0%nat end) l.
+
+Example c18_packing_guard_needed :
+  keys_per_page (build_branch_nodes_gen key_size false 64 (@Branch key bytes) (KU64 0) true true ex_level) = [1%nat; 1%nat] /\
+  keys_per_page (build_branch_nodes_gen key_size false 64 (@Branch key bytes) (KU64 0) false true ex_level) = [0%nat; 0%nat; 1%nat] /\
+  (* and without the tail fix-up a level of three such children ends in a one-child page *)
+  keys_per_page (build_branch_nodes_gen key_size false 64 (@Branch key bytes) (KU64 0) true false (firstn 3 ex_level)) = [1%nat; 0%nat] /\
+  keys_per_page (build_branch_nodes_gen key_size false 64 (@Branch key bytes) (KU64 0) true true (firstn 3 ex_level)) = [2%nat].
+Proof. vm_compute. repeat split; reflexivity. Qed.
